@@ -53,7 +53,7 @@ def gen_cases(seed, tier):
         cfg['nchan'] = int(rng.integers(1, min(cfg['P'] // 2, 5) + 1))
         cfg['start_chan'] = int(rng.integers(0, cfg['P'] // 2 - cfg['nchan'] + 1))
         cfg['digitize'] = bool(common.stratum(i, 1, 2))
-        if common.stratum(i, 7, 8) == 0:
+        if common.stratum(i, 7, 8 if tier == 'quick' else 64) == 0:
             # blocks holding more samples per antenna and polarisation than any "first N samples" shortcut (N = 10000) would read
             cfg['P'] = int(common.pick(rng, [8, 16]))
             cfg['nchan'] = int(min(cfg['P'] // 2, 4))
